@@ -32,7 +32,9 @@ type RecCache[T any] struct {
 	Adds  int
 }
 
-func NewRecCache[T any](bound int) *RecCache[T] { return &RecCache[T]{Bound: bound, vals: map[string]T{}} }
+func NewRecCache[T any](bound int) *RecCache[T] {
+	return &RecCache[T]{Bound: bound, vals: map[string]T{}}
+}
 
 func (c *RecCache[T]) touch(key string) {
 	for i, k := range c.keys {
